@@ -693,7 +693,7 @@ def write_top(path, desc):
         for mt in desc["moltypes"]:
             out.write("[ moleculetype ]\n%s 1\n[ atoms ]\n" % mt["name"])
             for i, resname in enumerate(mt["resnames"], start=1):
-                out.write("%d P%s %d %s B %d 0.0 72.0\n" % (i, mt["name"], i, resname, i))
+                out.write("%d P%s %d %s B %d 0.0 72.0\n" % (i, mt["name"], resid_of(mt, i - 1), resname, i))
             if mt["bonds"]:
                 out.write("[ bonds ]\n")
                 for a, b in mt["bonds"]:
@@ -832,9 +832,15 @@ def mol_instances(desc):
     return out
 
 
+def resid_of(mt, node):
+    """residue id of the node-th residue listed in the itp: `resids` if the type declares its own numbering (any order,
+    need not ascend with the node order), else node + 1"""
+    return mt["resids"][node] if mt.get("resids") else node + 1
+
+
 def selected(item, mt, node):
-    """the build-file selection: residue name and resid in [start, stop) (resid = node + 1)"""
-    return mt["resnames"][node] == item["resname"] and item["start"] <= node + 1 < item["stop"]
+    """the build-file selection: residue name and resid in [start, stop)"""
+    return mt["resnames"][node] == item["resname"] and item["start"] <= resid_of(mt, node) < item["stop"]
 
 
 def oracle_requests(desc, cap):
@@ -1312,6 +1318,53 @@ def run_predicates(ctx, cases):
     ctx.traces += len(pending)
 
 
+def tighten(sub, desc):
+    """make the region restraints of a system bite: `out` regions large enough that an unrestrained residue would often
+    lie inside (about a quarter of the box), so that a restraint that is declared but not enforced shows in the
+    finished structure"""
+    box = desc["box"][0]
+    for blk in desc["build"]:
+        for it in blk["items"]:
+            if it["kind"] in ("sphere", "cylinder", "rectangle") and it["io"] == "out":
+                size = box * sub.choice([0.3, 0.35, 0.4])
+                it["c"] = [box / 2] * 3
+                it["params"] = {"sphere": [size], "cylinder": [size, box], "rectangle": [size * 0.8] * 3}[it["kind"]]
+    return desc
+
+
+def renumber(sub, desc):
+    """give every molecule type its own residue numbering (legal in an itp): ids that start at an offset and may have
+    gaps, listed in an order that does NOT ascend with the order of the residues in the file — a rotation (the first
+    residues carry the highest ids), the reverse order, or a random permutation.  The residue ranges of the build-file
+    lines of that type are translated to the new ids (position p of 1..n -> p-th smallest id), so they keep selecting
+    by residue id what they selected before."""
+    for mt in desc["moltypes"]:
+        n = len(mt["resnames"])
+        if n < 2:
+            continue
+        ids = [sub.choice([1, 1, sub.randint(2, 20)])]
+        for _ in range(n - 1):
+            ids.append(ids[-1] + sub.choice([1, 1, 1, 2, 3]))
+
+        def to_id(p, ids=ids, n=n):
+            return ids[p - 1] if p <= n else ids[-1] + 1
+        for blk in desc["build"]:
+            if blk["mol"] == mt["name"]:
+                for it in blk["items"]:
+                    if it["kind"] in ("sphere", "cylinder", "rectangle", "rw"):
+                        it["start"], it["stop"] = to_id(it["start"]), to_id(it["stop"])
+        kind = sub.choice(["rotate", "rotate", "reverse", "shuffle"])
+        if kind == "rotate":
+            k = sub.randint(1, n - 1)
+            ids = ids[k:] + ids[:k]
+        elif kind == "reverse":
+            ids.reverse()
+        else:
+            sub.shuffle(ids)
+        mt["resids"] = ids
+    return desc
+
+
 def e2e_cases(ctx):
     rng = ctx.rng
     flavours = ["geom", "dir", "dist", "ring", "persist", "mixed", "dir", "ring"]
@@ -1321,6 +1374,16 @@ def e2e_cases(ctx):
         flavour = flavours[i % len(flavours)]
         cases.append(dict(stream="e2e", flavour=flavour, desc=gen_system(rng, flavour, ctx.thorough),
                           seed=rng.randint(0, 10 ** 6)))
+    # residue ids that do not ascend with the listing order (own generator: the cases above stay what they were);
+    # run FIRST, so that the time limit of the end-to-end part never drops this input dimension
+    sub = random.Random(("resid-order", ctx.seed, ctx.pid).__repr__())
+    renumbered = []
+    for i in range(ctx.budget(24, 200)):
+        flavour = ["geom", "dir", "mixed", "geom"][i % 4]
+        renumbered.append(dict(stream="e2e", flavour=flavour + "-renumbered",
+                               desc=tighten(sub, renumber(sub, gen_system(sub, flavour, ctx.thorough))),
+                               seed=sub.randint(0, 10 ** 6)))
+    cases = renumbered + cases
     return cases
 
 
@@ -1369,6 +1432,21 @@ def run_e2e(ctx, cases, timeout=None):
             got_ops = sorted([o["ref"], o["target"], sig9(o["d"]), sig9(o["tol"])] for o in ops)
             got_declared = [o for o in got_ops if o in want_ops]
             ctx.correspond("declared-restraints-registered", got_declared, want_ops, case)
+            # every region restraint the build file declares for a residue (molecule name and index range, residue
+            # name, residue id in [start, stop)) is attached to that residue: what is not attached is never enforced
+            want_regions, got_regions = [], []
+            for node in range(len(mt["resnames"])):
+                want = sorted([it["kind"], it["io"], [sig9(x) for x in it["c"]], [sig9(x) for x in it["params"]]]
+                              for blk in desc["build"] if blk["mol"] == mt["name"] and blk["frm"] <= mol_idx < blk["to"]
+                              for it in blk["items"] if it["kind"] in ("sphere", "cylinder", "rectangle")
+                              and selected(it, mt, node))
+                got = sorted([str(r[-1]), str(r[0]), [sig9(x) for x in r[1]], [sig9(x) for x in r[2:-1]]]
+                             for r in mol.nodes[node].get("restraints", []))
+                if want or got:
+                    want_regions.append([node, want])
+                    got_regions.append([node, got])
+            if want_regions or got_regions:
+                ctx.correspond("declared-regions-registered", got_regions, want_regions, case)
             if mt["name"] in desc.get("cycles", []):
                 declared = [[it["ref"], it["target"]] for blk in desc["build"]
                             if blk["mol"] == mt["name"] and blk["frm"] <= mol_idx < blk["to"]
